@@ -52,6 +52,39 @@ impl Ctx {
     }
 }
 
+/// Properties whose monitors have a `case` driven by one generator stream; the coverage-guided
+/// stage feeds that stream from the fuzzer's bytes (a "decision tape") instead of the PRNG.
+pub const GUIDED_PROPS: [&str; 5] = ["C02", "C03", "C04", "C05", "C15"];
+
+/// Run one case of `prop`'s monitor with the generator's decisions read from `tape`.
+/// Violations carry the tape as their replay coordinates.
+pub fn guided_case(prop: &str, tape: &[u8]) -> Report {
+    let ctx = Ctx { tier: Tier::Quick, seed: 1, threads: 1, stage: "guided".into(), scale_pct: 100 };
+    let mut tmp = Report::new();
+    util::set_decision_tape(tape);
+    let coords = || J::obj().set("property", prop).set("kind", "tape");
+    mon::guarded(&mut tmp, coords, |rep| match prop {
+        "C02" => mon::c02::case(&ctx, 0, 0, rep),
+        "C03" => mon::c03::case(&ctx, 0, 0, rep),
+        "C04" => mon::c04::case(&ctx, 0, 0, rep),
+        "C05" => mon::c05::case(&ctx, 0, 0, rep),
+        "C15" => mon::c15::case(&ctx, 0, 0, rep),
+        _ => {}
+    });
+    util::clear_decision_tape();
+    let mut out = Report::new();
+    out.evaluations = tmp.evaluations;
+    out.counters = tmp.counters.clone();
+    out.inconclusive = tmp.inconclusive.clone();
+    out.distinct = tmp.distinct.clone();
+    for (v, n) in tmp.violations.values() {
+        for _ in 0..*n {
+            out.violation(v.sig.clone(), v.detail.clone(), J::obj().set("property", prop).set("kind", "tape").set("tape", util::hex(tape)));
+        }
+    }
+    out
+}
+
 fn arg_val(args: &[String], name: &str) -> Option<String> {
     args.iter().position(|a| a == name).and_then(|i| args.get(i + 1).cloned())
 }
@@ -126,6 +159,33 @@ pub fn real_main() {
             let j = J::parse(&txt).expect("parse replay");
             let code = mon::replay(&j);
             std::process::exit(code);
+        }
+        "tape" => {
+            // hv tape <Cxx> <file> [--out <json>]: replay one decision tape (coverage-guided stage)
+            let prop = args.get(2).cloned().unwrap_or_default();
+            let data = std::fs::read(args.get(3).expect("tape file")).expect("read tape");
+            let rep = guided_case(&prop, &data);
+            let j = rep.to_json(&prop, "guided", "thorough", 1, "", 0.0);
+            if let Some(p) = arg_val(&args, "--out") {
+                std::fs::write(&p, j.to_string()).expect("write out");
+            }
+            for (v, _) in rep.violations.values() {
+                println!("replay: VIOLATION property={} sig={} :: {}", prop, v.sig, v.detail);
+            }
+            std::process::exit(if rep.violations.is_empty() { 0 } else { 1 });
+        }
+        "tapes" => {
+            // hv tapes <dir> <seed> <n>: seed corpus of pseudo-random decision tapes
+            let dir = args.get(2).cloned().unwrap_or_default();
+            let seed: u64 = args.get(3).and_then(|s| s.parse().ok()).unwrap_or(1);
+            let n: u64 = args.get(4).and_then(|s| s.parse().ok()).unwrap_or(64);
+            std::fs::create_dir_all(&dir).expect("corpus dir");
+            for i in 0..n {
+                let mut rng = util::Rng::new(seed ^ 0x7a9e, i);
+                let mut b = vec![0u8; 256 << (i % 5)];
+                rng.fill(&mut b);
+                std::fs::write(format!("{}/seed-{:04}", dir, i), &b).expect("write tape");
+            }
         }
         "corpus" => {
             let dir = args.get(2).cloned().unwrap_or_default();
